@@ -226,11 +226,13 @@ def rule_row_scaling(F, ev_unused, R, config, rule="R-ROW-SCALING"):
     env = Env(d)
     ev2 = Eval(F)
     rv = ev2.ret_val(env)
-    base, sites = strip_mut(rv)
-    ok = base == ("param", d.key, 2) and len(sites) == 1
-    R.add(rule, config, d.key, "returns-the-scaled-rhs", ok, "" if ok else "`&DiagMatrix * M` returns `%s`" % short(rv)[:160], d.j["span"])
-    # the only mutation: for every column, component_mul_assign(col, diagonal) — closure or loop form
     import effects as fx
+    import tab
+    cn = tab.Canon(ev2)
+    rhs = ("param", d.key, 2)
+    ok = cn.container(rv) == rhs and rv != rhs
+    R.add(rule, config, d.key, "returns-the-scaled-rhs", ok, "" if ok else "`&DiagMatrix * M` returns `%s`" % short(rv)[:160], d.j["span"])
+    # the only mutation: for every column k, component_mul_assign(column k, diagonal) — closure, iterator-loop or index-loop form
     good = 0
     others = []
     for e in fx.iteration_effects(ev2, env):
@@ -238,14 +240,16 @@ def rule_row_scaling(F, ev_unused, R, config, rule="R-ROW-SCALING"):
             others.append("store through %s" % short(e.args[0])[:40])
             continue
         m = e.name
-        if m == "component_mul_assign" and len(e.args) == 2:
-            hit = fx.column_of(e.args[0])
-            okd = e.args[1][0] == "field" and strip_mut(e.args[1][1])[0] == ("param", d.key, 1)
-            if hit and hit[0] == ("param", d.key, 2) and okd and fx.covers_all_columns_simple(e.args[0]):
+        if m == "component_mul_assign" and len(e.raw) == 2:
+            col = cn.canon(e.raw[0])
+            dg = cn.canon(e.raw[1])
+            okd = dg[0] == "field" and cn.container(dg[1]) == ("param", d.key, 1)
+            okc = col[0] == "col" and col[1] == rhs and col[2][0] == "iv" and cn.extent.get(col[2][1]) == ("ncols", rhs) and tab.executes_every_iteration(e)
+            if okc and okd:
                 good += 1
             else:
-                others.append("component_mul_assign(%s, %s)" % (short(e.args[0])[:50], short(e.args[1])[:40]))
-        elif m in ("column_iter_mut", "nrows", "ncols", "size", "len", "for_each", "into_iter", "next", "enumerate", "shape") or e.cid.startswith("core::panicking") or "assert_failed" in e.cid or "fmt::" in e.cid:
+                others.append("component_mul_assign(%s, %s)" % (short(col)[:50], short(dg)[:40]))
+        elif m in ("column_iter_mut", "column_mut", "nrows", "ncols", "size", "len", "for_each", "into_iter", "next", "enumerate", "shape") or e.cid.startswith("core::panicking") or "assert_failed" in e.cid or "fmt::" in e.cid:
             continue
         else:
             others.append(e.cid)
